@@ -56,7 +56,17 @@ def run(ctx):
     c02.plain_scan(ctx, rule="C07.R10")
     r11_plain_decoder(ctx, dec)
     r12_no_shared_default(ctx)
+    # 'the tables contain exactly each component's params' on resumed runs: a params record is written exactly for the ids the file does not hold yet
+    sub = type(ctx)(ctx.model, ctx.prop, ctx.tier, silent=True)
+    c02.r4_skip_guards(sub)
+    ctx.rule("C07.R14", "C02.R4 for the parameter tables: MakeTasks writes a component's params record iff its id is not among the restored ids (a membership test, not a count)")
+    for o in sub.obs:
+        o.rule = "C07.R14"
+        ctx.obs.append(o)
+    ctx.files |= sub.files
+    ctx.functions |= sub.functions
     r13_rows_unfiltered(ctx, proc)
+    r15_stamps_into_a_copy(ctx)
 
 
 def r12_no_shared_default(ctx, rule="C07.R12"):
@@ -84,6 +94,45 @@ def r12_no_shared_default(ctx, rule="C07.R12"):
             ctx.ob(rule, SAF_, qual, (returned + stored + written + [fn])[0], f"the mutable default of `{P}` stays inside the function", not (returned or stored or written),
                    detail={"returned": len(returned), "stored": len(stored), "written": len(written)}, stmt=f"{qual}({P}=<mutable default>)")
     ctx.floor(rule, "parameters with a mutable default in coba/safety.py", n, 1)
+
+
+def r15_stamps_into_a_copy(ctx, rule="C07.R15"):
+    """family / env_type / eval_type are the wrappers' additions: written into the mapping a component handed out they show up in every other component that hands out the
+    same mapping (two classes sharing a params dict are recorded with the first one's family) and they change the user's object."""
+    ctx.rule(rule, "the params properties of SafeLearner / SafeEnvironment / SafeEvaluator write their additions into a mapping made in the call: every definition of the name "
+                   "they store into is a dict(...) call, a dict literal or a comprehension -- never the component's own mapping")
+    SAF_ = "coba/safety.py"
+    n = 0
+    for cname in ("SafeLearner", "SafeEnvironment", "SafeEvaluator"):
+        fn = ctx.model.cls(SAF_, cname).methods.get("params")
+        if fn is None:
+            continue
+        from ..cfg import CFG
+        from ..dataflow import reaching_defs, PARAM
+        g = CFG(fn)
+        rd = reaching_defs(g, params=[a.arg for a in fn.args.args])
+
+        def fresh_expr(v):
+            if isinstance(v, (ast.Dict, ast.DictComp)) or (isinstance(v, ast.Call) and call_name(v) == "dict"):
+                return True
+            return isinstance(v, ast.IfExp) and fresh_expr(v.body) and fresh_expr(v.orelse)
+        stores = [st for st in ast.walk(fn) if isinstance(st, ast.Assign) and any(isinstance(t, ast.Subscript) and isinstance(t.value, ast.Name) for t in st.targets)]
+        for st in stores:
+            for t in [t for t in st.targets if isinstance(t, ast.Subscript) and isinstance(t.value, ast.Name)]:
+                n += 1
+                ok, seen = True, []
+                for nid in g.nodes_of(st):
+                    for d in rd.get(nid, {}).get(t.value.id, frozenset()):
+                        if d == PARAM:
+                            ok = False
+                            continue
+                        a_ = g.nodes[d].ast
+                        v = a_.value if isinstance(a_, ast.Assign) else None
+                        seen.append(unparse(v)[:60] if v is not None else "?")
+                        ok = ok and v is not None and fresh_expr(v)
+                ctx.ob(rule, SAF_, f"{cname}.params", st, f"`{unparse(t)}` is written into a mapping made in this call (every definition that reaches the store is a dict(...) / literal)", ok and bool(seen),
+                       detail={"reaching definitions": sorted(set(seen))})
+    ctx.floor(rule, "additions made by the Safe wrappers' params", n, 3)
 
 
 def r13_rows_unfiltered(ctx, proc, rule="C07.R13"):
@@ -544,6 +593,9 @@ def _sort_keys_default(tree):
 
 
 CONTROLS = [
+    ("SafeLearner stamps the family into the learner's own mapping", "coba/safety.py", M.replace_expr("SafeLearner.params", "dict(params) if isinstance(params, dict) else {'params': str(params)}", "params if isinstance(params, dict) else {'params': str(params)}"), "C07.R15"),
+    ("SafeEvaluator stamps eval_type into the evaluator's own mapping", "coba/safety.py", M.replace_expr("SafeEvaluator.params", "dict(self.evaluator.params)", "self.evaluator.params"), "C07.R15"),
+    ("params records skipped by counting the restored ids", PROC, M.replace_expr("MakeTasks.read", "eid not in restored_envs", "eid >= len(restored_envs)"), "C07.R14"),
     ("empty rows of an evaluation are dropped", PROC, M.replace_expr("ProcessTasks.filter", "list(SafeEvaluator(val).evaluate(env, lrn))", "[row for row in SafeEvaluator(val).evaluate(env, lrn) if row]"), "C07.R13"),
     ("the call-style helper hands its default kwargs out", "coba/safety.py", M.insert_before("SafeLearner._safe_call", lambda st: True, "self._last_kwargs = kwargs"), "C07.R12"),
     ("records decoded with the class-rebuilding decoder", RES, M.replace_expr("TransactionDecode.filter", "map(json.loads, transactions)", "map(coba.json.loads, transactions)"), "C07.R11"),
